@@ -327,6 +327,20 @@ pub fn run_check(ctx: &Ctx) -> i32 {
         let jobs: Vec<Job> = [sels, rev].into_iter().map(|g| Job { strs: g.iter().map(|s| s.render()).collect(), sels: g }).collect();
         slice(ctx, "(2b) 10 compounds with repeated / shared simple selectors in one rewriter, both registration orders x D<=3", &full, 3, &jobs, false);
     }
+    // (2c) the same selector registered several times in one rewriter (also as members of selector
+    // lists): every registration gets every match
+    {
+        let one = |x: Simple| Complex::single(Compound::one(x));
+        let chain = |a: Simple, comb: Comb, b: Simple| Complex { compounds: vec![Compound::one(a), Compound::one(b)], combs: vec![comb] };
+        let g: Vec<SelList> = vec![
+            SelList::one(one(ty("a"))), SelList::one(one(ty("a"))), SelList::one(one(Simple::Class("c".into()))), SelList::one(one(Simple::Class("c".into()))),
+            SelList::one(chain(ty("q"), Comb::Descendant, ty("a"))), SelList::one(chain(ty("q"), Comb::Descendant, ty("a"))), SelList::one(chain(ty("q"), Comb::Child, ty("a"))),
+            SelList(vec![one(ty("a")), one(ty("a"))]), SelList(vec![one(ty("a")), chain(ty("q"), Comb::Descendant, ty("a")), one(Simple::Class("c".into()))]),
+            SelList::one(one(ty("a"))), SelList::one(one(Simple::AttrExists("k".into()))), SelList::one(one(Simple::AttrExists("k".into()))),
+        ];
+        let job = Job { strs: g.iter().map(|s| s.render()).collect(), sels: g };
+        slice(ctx, "(2c) 12 registrations with repeated selectors and overlapping selector lists in one rewriter x D<=4", &full, 4, &[job], true);
+    }
     // (3) complex selectors of 2 compounds
     let ch2 = chains(&simples_core(), 2);
     slice(ctx, &format!("(3) {} two-compound chains (child/descendant) in groups of 40 x Dred<={}", ch2.len(), 4), &red, 4, &jobs_from(ch2.clone(), 40, true), quick == false);
@@ -416,9 +430,11 @@ pub fn run_check(ctx: &Ctx) -> i32 {
     // then one selector of the core — its matches must not depend on its registration index
     {
         let mut jobs = vec![];
-        for n in [31usize, 32, 33, 63, 64, 65, 127, 128, 129] {
+        let ns: &[usize] = if quick { &[31, 32, 33, 64, 65, 128, 129] } else { &[31, 32, 33, 63, 64, 65, 127, 128, 129] };
+        for &n in ns {
             let fillers: Vec<SelList> = (0..n).map(|i| SelList::one(Complex::single(Compound::one(ty(&format!("zz{i}")))))).collect();
-            for target in simple_lists(simples_core()) {
+            let targets = simple_lists(simples_core());
+            for target in targets.into_iter().step_by(if quick { 2 } else { 1 }) {
                 let mut g = fillers.clone();
                 g.push(target);
                 jobs.push(Job { strs: g.iter().map(|s| s.render()).collect(), sels: g });
@@ -428,7 +444,7 @@ pub fn run_check(ctx: &Ctx) -> i32 {
             g.extend(simple_lists(vec![ty("a"), Simple::Universal, Simple::Class("c".into())]));
             jobs.push(Job { strs: g.iter().map(|s| s.render()).collect(), sels: g });
         }
-        slice(ctx, &format!("(9) {} groups: N never-matching selectors (N in 31..33, 63..65, 127..129) followed by one core selector (or three) x Dred<=3", jobs.len()), &red, 3, &jobs, false);
+        slice(ctx, &format!("(9) {} groups: N never-matching selectors (N around 32, 64, 128) followed by one core selector (or three) x Dred<=3", jobs.len()), &red, 3, &jobs, false);
     }
     ctx.finish(
         "model_checking",
